@@ -67,6 +67,7 @@ func TestC27(t *testing.T) {
 	r.Assume("only types listed under covered_* are claimed; registered types under not_covered were never generated (no exported constructor)")
 	r.Assume("isaac.Params is node-local configuration whose encoding omits the network id by design (the loader sets it): the decoded Params gets the network id set before IsValid is compared")
 	r.Assume("tree nodes encode without _hint and are decoded with DecodeWithHint; keys and addresses encode as '<body><type>' strings and are decoded with DecodeWithFixedHintType")
+	r.Assume("every hinted object is also decoded 5 times from the same bytes (3 in a row, another type, 2 more) on a per-worker encoder, unmodified and with every _hint (top level and nested) rewritten to a higher compatible version (patch+1; minor+3): all decodes must agree in type, hint, hash, validity and re-encoding; the current tree keeps the received hint version in the decoded object, so the re-encoding must equal what was received")
 	r.Assume("a panic inside IsValid counts as a validity verdict of its own ('panic:<site>'): equal before and after decoding is not a C27 violation; sites are listed in isvalid_panic_sites")
 
 	enc, err := objrig.NewEncoder()
@@ -87,6 +88,14 @@ func TestC27(t *testing.T) {
 	byGroup := map[string]int{}
 	panicSites := map[string]int{}
 	invalidGen := map[string]string{} // generator expected valid but invalid: first error
+
+	// a valid encoding of another type, decoded in between repeated decodes
+	otherBytes, err := enc.Marshal(objrig.NewG(r.Rand(999)).Manifest())
+	if err != nil {
+		r.Inconclusive("marshal manifest: " + err.Error())
+
+		return
+	}
 
 	type job struct{ s, i int }
 
@@ -265,6 +274,17 @@ func TestC27(t *testing.T) {
 				r.Violation("reencode-differs:"+ht+":"+where,
 					fmt.Sprintf("%s: re-encoding the decoded object differs at %s", spec.Name, where), wit)
 			}
+		}
+
+		// the same bytes decoded again and again, also with compatible hint versions
+		if spec.FixedTypeSize == 0 {
+			res, nd, nv := repeated(spec, ht, b, otherBytes, g.NetworkID)
+			for _, x := range res {
+				r.Violation(x.Sig, x.What, x.Witness)
+			}
+
+			r.Count("repeated_decodes", nd)
+			r.Count("compatible_version_variants", nv)
 		}
 
 		mu.Lock()
